@@ -16,6 +16,7 @@ from puresnmp.adt import (
     V3Flags,
 )
 from puresnmp.credentials import V3, Credentials
+from puresnmp.exc import ErrorResponse
 from puresnmp.pdu import (
     PDU,
     BulkGetRequest,
@@ -72,8 +73,19 @@ class V3MPM(MessageProcessingModel[V3EncodingResult, TV3SecModel]):
         security_model_id = 3
         if self.security_model is None:
             self.security_model = create_sm(security_model_id)
-        message = Message.decode(whole_msg)
-        msg = self.security_model.process_incoming_message(message, credentials)
+        try:
+            message = Message.decode(whole_msg)
+            msg = self.security_model.process_incoming_message(
+                message, credentials
+            )
+        except ErrorResponse:
+            raise
+        except Exception:
+            # The response could not be processed. The cached discovery data
+            # may be the culprit (f.ex. "unknown engine-id" reports), so we
+            # run the discovery again with the next request.
+            self.disco = None
+            raise
         return msg.scoped_pdu.data
 
     async def encode(
